@@ -18,6 +18,7 @@ pub mod mtud;
 pub mod streams;
 pub mod wire;
 pub mod rxpn;
+pub mod rcv;
 
 use crate::{Rng, Runner};
 
@@ -31,6 +32,7 @@ pub fn lookup(name: &str) -> Option<(&'static str, GenFn)> {
         "dedup" => (wire::DEDUP_RULE, wire::dedup as GenFn),
         "sbuf" => (sbuf::SBUF_RULE, sbuf::sbuf as GenFn),
         "asm" => (asm::ASM_RULE, asm::asm as GenFn),
+        "rcv" => (rcv::RCV_RULE, rcv::rcv as GenFn),
         "cidq" => (cidq::CIDQ_RULE, cidq::cidq as GenFn),
         "cidstate" => (cidstate::CIDSTATE_RULE, cidstate::cidstate as GenFn),
         "ackfreq" => (ackfreq::ACKFREQ_RULE, ackfreq::ackfreq as GenFn),
